@@ -30,6 +30,7 @@ type peImage struct {
 	regions []peRegion // free regions (flippable without changing the layout)
 	cksum, dd4, soh, certva, filelen int
 	ptrs    []int
+	sizes   []int // SizeOfRawData per section header, in header order (images made by buildPE)
 }
 
 func layoutFrom(m M) peLayout {
@@ -151,6 +152,7 @@ func buildPE(l peLayout, fillID string) *peImage {
 		put32(b, sh+36, chars[int(prbytes(fmt.Sprintf("chars:%s:%d", fillID, k), 1)[0])%len(chars)])
 		img.regions = append(img.regions, peRegion{fmt.Sprintf("sechdr%d", k), sh + 1, sh + 16}, peRegion{fmt.Sprintf("secchar%d", k), sh + 36, sh + 40})
 		img.ptrs = append(img.ptrs, p)
+		img.sizes = append(img.sizes, s.size)
 		if s.size > 0 {
 			img.regions = append(img.regions, peRegion{fmt.Sprintf("sec%d", k), ptr[k], ptr[k] + s.size})
 		}
